@@ -159,6 +159,9 @@ func (i *interpreter) newMapIter(m *omap) iter {
 	keys := m.liveKeys()
 	if i.x.mapOrder && len(keys) >= 2 && len(keys) <= i.x.mapOrderMax && i.x.inInit == 0 {
 		r := i.x.choice("", len(keys))
+		if r != 0 {
+			i.x.mapOrderUsed = true
+		}
 		keys = append(append([]value(nil), keys[r:]...), keys[:r]...)
 		i.x.stub("map iteration order (environment choice: rotations of insertion order)")
 	}
